@@ -173,6 +173,8 @@ def apply(text, opts, kind='fn'):
         text = _sub(r'\btake\(([^()]*(?:\([^()]*\))?[^()]*)\)\(([^()]*)\)', r'take_n(\1, \2)', text, counts, 'R3')
         # R4
         text = rule_R4(text, counts, opts)
+        # R4b: "literal".to_string() is a message text too
+        text = _sub(r'"(?:[^"\\]|\\.)*"\s*\.to_string\(\)', 'fmt_shim()', text, counts, 'R4')
         # R10
         text = _sub(r'\bvec!\[([^;\[\]]+);\s*([^\[\]]+)\]', r'vec_from_elem(\1, \2)', text, counts, 'R10')
         # R5
